@@ -1327,7 +1327,9 @@ class Bpsec(AbstractApplication):
                 try:
                     result = ctx.verify_bcb(ctr, bcb)
                 except Exception as err:
-                    result = f'Failed to verify BCB in block num {bcb.block_num} with context {bcb.payload.context_id}: {err}'
+                    LOGGER.warning('Failed to verify BCB in block num %s with context %s: %s',
+                                   bcb.block_num, bcb.payload.context_id, err)
+                    result = StatusReport.ReasonCode.FAILED_SEC
 
             if result is not None:
                 failure.append(result)
@@ -1362,7 +1364,9 @@ class Bpsec(AbstractApplication):
                 try:
                     result = ctx.verify_bib(ctr, bib)
                 except Exception as err:
-                    result = f'Failed to verify BIB in block num {bib.block_num} with context {bib.payload.context_id}: {err}'
+                    LOGGER.warning('Failed to verify BIB in block num %s with context %s: %s',
+                                   bib.block_num, bib.payload.context_id, err)
+                    result = StatusReport.ReasonCode.FAILED_SEC
             if result is not None:
                 failure.append(result)
 
